@@ -67,7 +67,9 @@ Record proxy := mkpx { buf : text; queue : list item; fth : fstate; handed : lis
 Record env := mkenv { app : bool; running : bool; lid : nat; lclosed : bool;
                       loopq : list text;
                       ctx : bool; (* which session the rig created the proxy in; no step reads it *)
-                      patched : bool (* sys.stdout / sys.stderr are the proxy (inside `with patch_stdout():`) *) }.
+                      patched : bool; (* sys.stdout / sys.stderr are the proxy (inside `with patch_stdout():`) *)
+                      isdone : bool (* Application.is_done: the application's future has a result (exit() was
+                                       called); _is_running becomes False only when run_async resumes *) }.
 Record chain := mkch { nextf : nat; lastf : option nat; donef : list nat;
                        waitq : list sec; active : option nat; started : list nat }.
 (* cursor position requests (Renderer._waiting_for_cpr_futures, cpr_support):
@@ -87,10 +89,14 @@ Inductive label :=
 (* patch_stdout(): print()/sys.stdout.write/flush from thread t (reaches the proxy only
    while sys.stdout is the proxy), and the first half of the context manager's exit
    (streams restored; the second half is LClose) *)
-| LPW (t : Z) (d : text) | LPFlush (t : Z) | LRestore.
+| LPW (t : Z) (d : text) | LPFlush (t : Z) | LRestore
+(* Application.exit() has been called (the future has its result: is_done) but run_async has not
+   resumed yet: _is_running is still True.  LAppExit is then the resumption (done-render,
+   _is_running = False); LAppExit without a preceding LAppDone is both at once. *)
+| LAppDone.
 
 Definition init2 (c r : bool) : st :=
-  mkst (mkpx [] [] FIdle []) (mkenv false false O false [] c true)
+  mkst (mkpx [] [] FIdle []) (mkenv false false O false [] c true false)
        (mkch O None [] [] None []) [] [] (mkcp O false false r).
 Definition init (c : bool) : st := init2 c false.
 
@@ -159,6 +165,10 @@ Definition start_sec (run : bool) (s : sec) (c : chain) (o : list ev) : chain * 
 Definition cpr_pending (k : cpr) : bool := cpron k && negb (Nat.eqb (cprq k) 0).
 (* Application._request_absolute_cursor_position -> Renderer.request_absolute_cursor_position
    (the NOT_SUPPORTED timer of 2 s is outside the model) *)
+(* [run] is the condition of Application._request_absolute_cursor_position:
+   `not self.key_processor.input_queue and not self.is_done` - callers pass negb (isdone e); the
+   input queue is empty at the modelled call sites (no keys are typed; a CPR report's key has
+   been popped before its handler runs) *)
 Definition request (run : bool) (k : cpr) : cpr :=
   if cpron k && run && (cprsup k || Nat.eqb (cprq k) 0)
   then mkcp (S (cprq k)) (cprsup k) (cprwait k) (cpron k) else k.
@@ -187,12 +197,12 @@ Definition submit_cpr (run : bool) (p : pay) (c : chain) (k : cpr) : cpr :=
   else k.
 
 (* the section at the head of waitq leaves wait_for_cpr_responses() *)
-Definition resume (run : bool) (c : chain) (k : cpr) (o : list ev) : chain * cpr * list ev :=
+Definition resume (run rq : bool) (c : chain) (k : cpr) (o : list ev) : chain * cpr * list ev :=
   match waitq c with
   | x :: w =>
       let c0 := mkch (nextf c) (lastf c) (donef c) w (active c) (started c) in
       let (c', o') := start_sec run x c0 o in
-      (c', after_start run x (set_wait k false), o')
+      (c', after_start rq x (set_wait k false), o')
   | [] => (c, set_wait k false, o)
   end.
 
@@ -202,7 +212,7 @@ Definition inval_render (run : bool) (c : chain) : list ev :=
 
 Definition set_fth (p : proxy) (f : fstate) (h : list text) : proxy := mkpx (buf p) (queue p) f h.
 Definition set_loopq (e : env) (q : list text) : env :=
-  mkenv (app e) (running e) (lid e) (lclosed e) q (ctx e) (patched e).
+  mkenv (app e) (running e) (lid e) (lclosed e) q (ctx e) (patched e) (isdone e).
 
 (* ---- AppSession / contextvars: which application a callback sees ----
    Session 0 is the default AppSession: what get_app_session() returns in a context that never
@@ -233,7 +243,7 @@ Definition loop_step (with_context : bool) (s : st) : st :=
   | t :: q =>
       if get_app_or_none (cb_session with_context e) e && (running e || negb (fdone c (lastf c)))
       then let (c', o') := submit (running e) (cpr_pending k) (PWrite t) c (out s) in
-           mkst p (set_loopq e q) c' o' (lost s) (submit_cpr (running e) (PWrite t) c k)
+           mkst p (set_loopq e q) c' o' (lost s) (submit_cpr (negb (isdone e)) (PWrite t) c k)
       else mkst p (set_loopq e q) c
                 (out s ++ [EWrite t (running e) (match active c with Some _ => true | None => false end); EFlush])
                 (lost s) k
@@ -268,21 +278,21 @@ Definition step (s : st) (l : label) : st :=
       end
   | LAppStart =>
       if negb (app e) && negb (running e)
-      then mkst p (mkenv true true (if lclosed e then S (lid e) else lid e) false (loopq e) (ctx e) (patched e)) c
+      then mkst p (mkenv true true (if lclosed e then S (lid e) else lid e) false (loopq e) (ctx e) (patched e) false) c
                 (out s ++ [ERender]) (lost s) (request true k)
       else s
   | LAppExit =>
       if app e && running e
-      then mkst p (mkenv true false (lid e) (lclosed e) (loopq e) (ctx e) (patched e)) c
+      then mkst p (mkenv true false (lid e) (lclosed e) (loopq e) (ctx e) (patched e) true) c
                 (out s ++ match active c with None => [ERender] | Some _ => [] end) (lost s) k
       else s
   | LAppStop =>
       if app e && negb (running e) && fdone c (lastf c) && Nat.eqb (cprq k) 0
-      then mkst p (mkenv false false (lid e) (lclosed e) (loopq e) (ctx e) (patched e)) c (out s) (lost s) k
+      then mkst p (mkenv false false (lid e) (lclosed e) (loopq e) (ctx e) (patched e) false (* create_future's exit: self.future = None *)) c (out s) (lost s) k
       else s
   | LLoopClose =>
       if negb (app e) && negb (lclosed e)
-      then mkst p (mkenv false (running e) (lid e) true [] (ctx e) (patched e)) c (out s) (lost s ++ loopq e) k
+      then mkst p (mkenv false (running e) (lid e) true [] (ctx e) (patched e) (isdone e)) c (out s) (lost s ++ loopq e) k
       else s
   | LLoopStep => loop_step true s
   | LRender =>
@@ -291,13 +301,13 @@ Definition step (s : st) (l : label) : st :=
   | LExtBegin =>
       if app e && running e
       then let (c', o') := submit (running e) (cpr_pending k) PExt c (out s) in
-           mkst p e c' o' (lost s) (submit_cpr (running e) PExt c k)
+           mkst p e c' o' (lost s) (submit_cpr (negb (isdone e)) PExt c k)
       else s
   | LExtEnd =>
       match active c with
       | Some own =>
           mkst p e (mkch (nextf c) (lastf c) (own :: donef c) (waitq c) None (started c))
-               (out s ++ redraw (running e)) (lost s) (request (running e) k)
+               (out s ++ redraw (running e)) (lost s) (request (negb (isdone e)) k)
       | None => s
       end
   | LWake i =>
@@ -309,13 +319,17 @@ Definition step (s : st) (l : label) : st :=
                     mkst p e c (out s) (lost s) (set_wait k true)
                else let c0 := mkch (nextf c) (lastf c) (donef c) (remove_nth i (waitq c)) (active c) (started c) in
                     let (c', o') := start_sec (running e) x c0 (out s) in
-                    mkst p e c' o' (lost s) (after_start (running e) x k)
+                    mkst p e c' o' (lost s) (after_start (negb (isdone e)) x k)
           else s
       | None => s
       end
   | LPW _ d => if patched e then mkst (do_write p d) e c (out s) (lost s) k else s
   | LPFlush _ => if patched e then mkst (do_flush p) e c (out s) (lost s) k else s
-  | LRestore => mkst p (mkenv (app e) (running e) (lid e) (lclosed e) (loopq e) (ctx e) false) c (out s) (lost s) k
+  | LRestore => mkst p (mkenv (app e) (running e) (lid e) (lclosed e) (loopq e) (ctx e) false (isdone e)) c (out s) (lost s) k
+  | LAppDone =>
+      if app e && running e && negb (isdone e)
+      then mkst p (mkenv (app e) (running e) (lid e) (lclosed e) (loopq e) (ctx e) (patched e) true) c (out s) (lost s) k
+      else s
   | LCprAnswer =>
       (* the terminal's report is read from the (attached) input: the oldest future is
          resolved; the key binding's call invalidates the application, so a render
@@ -323,7 +337,7 @@ Definition step (s : st) (l : label) : st :=
       if app e && cpron k && negb (Nat.eqb (cprq k) 0) && match active c with None => true | Some _ => false end
       then let k1 := mkcp (Nat.pred (cprq k)) true (cprwait k) (cpron k) in
            if cprwait k && Nat.eqb (cprq k1) 0
-           then let '(c', k', o') := resume (running e) c k1 (out s) in
+           then let '(c', k', o') := resume (running e) (negb (isdone e)) c k1 (out s) in
                 mkst p e c' (o' ++ inval_render (running e) c') (lost s) k'
            else mkst p e c (out s ++ inval_render (running e) c) (lost s) k1
       else s
@@ -332,7 +346,7 @@ Definition step (s : st) (l : label) : st :=
       if negb (Nat.eqb (cprq k) 0) && (cprwait k || (app e && negb (running e)))
       then let k1 := mkcp O (cprsup k) (cprwait k) (cpron k) in
            if cprwait k
-           then let '(c', k', o') := resume (running e) c k1 (out s) in mkst p e c' o' (lost s) k'
+           then let '(c', k', o') := resume (running e) (negb (isdone e)) c k1 (out s) in mkst p e c' o' (lost s) k'
            else mkst p e c (out s) (lost s) k1
       else s
   end.
@@ -370,6 +384,7 @@ Definition enabled (s : st) (l : label) : bool :=
   let p := px s in let e := en s in let c := ch s in
   match l with
   | LW _ _ | LFlush _ | LClose | LPW _ _ | LPFlush _ | LRestore => true
+  | LAppDone => app e && running e && negb (isdone e)
   | LFGet => match fth p, queue p with FIdle, _ :: _ => true | _, _ => false end
   | LFNowait => match fth p with FCollect _ _ => true | _ => false end
   | LFChoose => match fth p with FDrained _ _ => true | _ => false end
@@ -481,7 +496,7 @@ Fixpoint desugar (p : bool) (ls : list label) : list label :=
   end.
 
 Definition no_lifecycle (l : label) : bool :=
-  match l with LAppStart | LAppExit | LAppStop | LLoopClose | LPW _ _ | LPFlush _ => false | _ => true end.
+  match l with LAppStart | LAppExit | LAppDone | LAppStop | LLoopClose | LPW _ _ | LPFlush _ => false | _ => true end.
 (* the application, once started, is not stopped or restarted (it may exit) *)
 Definition app_alive (l : label) : bool :=
   match l with LAppStart | LAppStop | LLoopClose | LPW _ _ | LPFlush _ => false | _ => true end.
@@ -536,7 +551,7 @@ Definition obs (s : st) : sx :=
   L [ sx_fst (fth (px s)); sx_str (buf (px s)); sx_list sx_item (queue (px s));
       sx_list sx_str (loopq (en s)); sx_bool (app (en s)); sx_bool (running (en s));
       sx_bool (negb (fdone (ch s) (lastf (ch s)))); sx_bool (match active (ch s) with Some _ => true | None => false end);
-      sx_nat (length (out s)); sx_nat (cprq (cp s)); sx_bool (cprwait (cp s)) ].
+      sx_nat (length (out s)); sx_nat (cprq (cp s)); sx_bool (cprwait (cp s)); sx_bool (isdone (en s)) ].
 
 (* The lock as a resource: the only labels that touch the shared _buffer are
    LW / LFlush = the body of write()/flush() executed while holding _lock, so
@@ -575,6 +590,7 @@ Definition label_of_sx (x : sx) : option label :=
   | L [A 19; A t; d] => match as_str d with Some d' => Some (LPW t d') | None => None end
   | L [A 20; A t] => Some (LPFlush t)
   | L [A 21] => Some LRestore
+  | L [A 22] => Some LAppDone
   | L [A 18] => Some LCprTimeout
   | _ => None
   end.
